@@ -209,7 +209,7 @@ class _Flattener:
         if target.node.decorator_list and target.kind == "method":
             return None
         for n in ast.walk(target.node):
-            if n is not target.node and isinstance(n, (ast.FunctionDef, ast.AsyncFunctionDef, ast.Lambda, ast.Global, ast.Nonlocal)):
+            if n is not target.node and isinstance(n, (ast.FunctionDef, ast.AsyncFunctionDef, ast.Global, ast.Nonlocal)):
                 return None
         if any(p.kind in ("VAR_POSITIONAL", "VAR_KEYWORD") for p in target.params):
             return None
@@ -286,6 +286,17 @@ class _Flattener:
                 if n.name in rename:
                     n.name = rename[n.name]
                 return n
+
+            def visit_Lambda(self, n):
+                shadow = {a.arg for a in ast.walk(n.args) if isinstance(a, ast.arg)}
+                if shadow & (set(subst) | set(rename)):
+                    return n    # parameters shadow a substituted / renamed name: leave the lambda alone
+                self.generic_visit(n)
+                return n
+        for lam in [x for x in ast.walk(holder) if isinstance(x, ast.Lambda)]:
+            shadow = {a.arg for a in ast.walk(lam.args) if isinstance(a, ast.arg)}
+            if shadow & (set(subst) | set(rename)) and (_all_names(lam.body) - shadow) & (set(subst) | set(rename)):
+                return None   # both shadowing and capture in one lambda: not worth the case analysis
         holder = Sub().visit(holder)
         return binds + holder.body
 
